@@ -5,7 +5,7 @@ set -u
 c=$1; prop=$2; secs=${3:-20}
 git -C /repo diff --quiet || { echo "repo dirty"; exit 2; }
 git -C /repo show "$c" | git -C /repo apply -R || { echo "cannot revert $c"; exit 2; }
-python3 /verif/tools/check.py "$prop" --time "$secs" > /tmp/revert.out 2>&1
+VERIF_EVIDENCE=/verif/build/evidence_scratch python3 /verif/tools/check.py "$prop" --time "$secs" > /tmp/revert.out 2>&1
 rc=$?
 git -C /repo checkout -- .
 echo "reverted=$c ($(git -C /repo log --format=%s -1 $c | cut -c1-70)) property=$prop exit=$rc $(grep -c '^VIOLATION' /tmp/revert.out) violation(s)"
